@@ -25,6 +25,7 @@ type KnownFinding struct {
 	Obligation string `json:"obligation"`
 	Witness    string `json:"witness"`
 	What       string `json:"what"`
+	Input      string `json:"input,omitempty"` // grammar findings: the exact shortest failing input found by the witness search
 }
 
 type KnownFile struct {
@@ -123,10 +124,38 @@ func RunProperty(p string, secs int, thorough bool, keep string) (*RunResult, er
 			e.VerifyFunc(key)
 		}
 	}
+	// C01, zero-annotation sweep: every function without a contract is verified for panic-freedom with no
+	// precondition.  These obligations are advisory: only those that discharged on the unchanged tree (ledger) are
+	// part of the claim; the others are listed as open in the evidence and never raise an alarm.
+	if p == "" || p == "C01" {
+		var keys []string
+		for k, fi := range prog.Funcs {
+			if fi.File == "roll.peg.go" || fi.File == ContractsFileName || fi.File == GenFileName || strings.HasSuffix(fi.File, "_test.go") || fi.Decl == nil || fi.Decl.Body == nil {
+				continue
+			}
+			if _, has := prog.CF.Contracts[k]; !has {
+				keys = append(keys, k)
+			}
+		}
+		sort.Strings(keys)
+		for _, k := range keys {
+			n0 := len(e.Obls)
+			nv := len(e.Verified)
+			e.VerifyFunc(k)
+			e.Verified = e.Verified[:minInt(nv, len(e.Verified))]
+			for _, o := range e.Obls[n0:] {
+				o.Advisory = true
+				o.Props = []string{"C01"}
+			}
+		}
+	}
 	e.AddLemmas()
 	e.AddStructural()
 	var obls []*Obligation
 	for _, o := range e.Obls {
+		if o.Advisory && o.Canary {
+			continue
+		}
 		if p == "" || hasProp(o.Props, p) || (o.Canary && p != "") {
 			obls = append(obls, o)
 		}
@@ -224,6 +253,7 @@ func report(prop, tier string, seed int, rr *RunResult) int {
 	var samples []any
 	sort.SliceStable(rr.Obls, func(i, j int) bool { return rr.Obls[i].Name < rr.Obls[j].Name })
 	canaries, canaryBad := 0, 0
+	sweepOpen, sweepNew := 0, 0
 	for _, o := range rr.Obls {
 		present[o.Name] = o
 		solverSecs += o.Secs
@@ -238,7 +268,13 @@ func report(prop, tier string, seed int, rr *RunResult) int {
 			continue
 		}
 		if kf, ok := knownBy[o.Name]; ok {
-			if o.Status != "proved" {
+			if o.Status != "proved" && kf.Input != "" && o.Witness != "" && o.Witness != kf.Input {
+				// the obligation is a listed finding, but the shortest failing input is no longer the recorded one:
+				// a different violation of the same obligation
+				violations++
+				o.Output += fmt.Sprintf("\nthis obligation is a recorded finding with witness %q; the shortest failing input now is %q", kf.Input, o.Witness)
+				emitViolation(e, prop, o, "new-witness-for-known-finding")
+			} else if o.Status != "proved" {
 				fmt.Printf("KNOWN-FINDING: property=%s %s [obligation %s, witness %s]\n", prop, kf.What, o.Name, kf.Witness)
 				knownHit = append(knownHit, o.Name)
 			} else {
@@ -246,6 +282,15 @@ func report(prop, tier string, seed int, rr *RunResult) int {
 				nObl++
 				nDis++
 				bySolver[o.Solver]++
+			}
+			continue
+		}
+		if o.Advisory && !locked[o.Name] {
+			// zero-annotation sweep: never discharged on the unchanged tree, not part of the claim
+			if o.Status == "proved" {
+				sweepNew++
+			} else {
+				sweepOpen++
 			}
 			continue
 		}
@@ -312,6 +357,8 @@ func report(prop, tier string, seed int, rr *RunResult) int {
 		"vacuity_failures":         canaryBad,
 		"ledger_size":              len(locked),
 		"ledger_missing":           missing,
+		"sweep_open_obligations":   sweepOpen,
+		"sweep_new_proved":         sweepNew,
 		"explanation":              "every obligation is generated from /repo's current source on this run (contracts in /repo/verif_contracts.go, tag verif) and discharged by an SMT solver, or — for frame:* obligations — by the syntactic effect pass over the typed call graph; see DESIGN.md",
 		"integers":                 "mathematical Int with exact two's-complement wrap at every Go arithmetic operation; bit operators via lemmas proved in QF_BV on every run",
 	}
